@@ -73,7 +73,9 @@ Inductive pyval :=
 | PDecimal (d : dec)
 | PList (l : list pyval)
 | PTuple (l : list pyval)
-| PSet (l : list pyval).                       (* in iteration order *)
+| PSet (l : list pyval)                        (* in iteration order *)
+| PAware (y m d h mi s us off : Z).            (* round 7: zone-aware datetime.datetime whose tzinfo is a fixed offset
+                                                  (datetime.timezone) of [off] whole seconds east of UTC *)
 
 Definition class_of (x : pyval) : pyclass :=
   match x with
@@ -81,6 +83,7 @@ Definition class_of (x : pyval) : pyclass :=
   | PStr _ => K_str | PBytes _ => K_bytes | PDate _ _ _ => K_date
   | PDatetime _ _ _ _ _ _ _ => K_datetime | PDecimal _ => K_Decimal
   | PList _ => K_list | PTuple _ => K_tuple | PSet _ => K_set
+  | PAware _ _ _ _ _ _ _ _ => K_datetime
   end.
 
 Definition pyclass_eqb (a b : pyclass) : bool :=
@@ -124,6 +127,8 @@ Fixpoint pyval_eqb (a b : pyval) : bool :=
   | PList x, PList y => list_eqb x y
   | PTuple x, PTuple y => list_eqb x y
   | PSet x, PSet y => list_eqb x y
+  | PAware y1 m1 d1 h1 i1 s1 u1 o1, PAware y2 m2 d2 h2 i2 s2 u2 o2 =>
+      (y1 =? y2) && (m1 =? m2) && (d1 =? d2) && (h1 =? h2) && (i1 =? i2) && (s1 =? s2) && (u1 =? u2) && (o1 =? o2)
   | _, _ => false
   end.
 
@@ -415,6 +420,15 @@ Definition render_datetime (y m d h mi s us : Z) : list N :=
   render_date y m d ++ [cSp] ++ d2 h ++ [cColon] ++ d2 mi ++ [cColon] ++ d2 s
   ++ (if us =? 0 then [] else cDot :: d6 us).
 
+(* the UTC offset as datetime.isoformat prints it: sign, hours, minutes, seconds only when not zero *)
+Definition render_offset (off : Z) : list N :=
+  let a := Z.abs off in
+  (if off <? 0 then 45%N else 43%N) :: d2 (a / 3600) ++ [cColon] ++ d2 ((a / 60) mod 60)
+  ++ (if a mod 60 =? 0 then [] else cColon :: d2 (a mod 60)).
+(* str(datetime.datetime) of a zone-aware value *)
+Definition render_aware (y m d h mi s us off : Z) : list N :=
+  render_datetime y m d h mi s us ++ render_offset off.
+
 Definition to_c08 (x : pyval) : value :=
   match x with
   | PInt z => VInt z
@@ -423,6 +437,7 @@ Definition to_c08 (x : pyval) : value :=
   | PBytes b => VBytes b
   | PDate y m d => VDate y m d
   | PDatetime y m d h mi s us => VDatetime y m d h mi s us
+  | PAware y m d h mi s us _ => VDatetime y m d h mi s us     (* type(x) is datetime.datetime, naive or aware *)
   | _ => VOther                      (* bool (type(x) is not int), Decimal, containers *)
   end.
 
@@ -487,6 +502,7 @@ Definition py_str (x : pyval) : res (list N) :=
   | PStr s => ROk s
   | PDate y m d => ROk (render_date y m d)
   | PDatetime y m d h mi s us => ROk (render_datetime y m d h mi s us)
+  | PAware y m d h mi s us off => ROk (render_aware y m d h mi s us off)
   | PDecimal d => ROk (dec_str d)
   | PBytes _ | PList _ | PTuple _ | PSet _ => ROk (str_container x)
   end.
@@ -546,9 +562,18 @@ Definition parse_double (x : pyval) : res pyval :=
 (* parse_date / parse_timestamp: parse_iso, None -> ValueError *)
 Definition parse_date (x : pyval) : res pyval :=
   dor t <- of_result (cast_date (to_c08 x)) ; let '(y, m, d) := t in ROk (PDate y m d).
+(* parse_iso on a native datetime.datetime is value.replace(microsecond=0): every other attribute
+   of the value - its tzinfo in particular - is kept.  Model/C08's date-times carry no zone (its
+   VDatetime stands for naive and aware values alike), so the zone of a native zone-aware input is
+   carried across here; every other input (text, bytes, numbers, dates) gives a naive date-time. *)
+Definition keep_zone (x r : pyval) : pyval :=
+  match x, r with
+  | PAware _ _ _ _ _ _ _ off, PDatetime y m d h mi s us => PAware y m d h mi s us off
+  | _, _ => r
+  end.
 Definition parse_timestamp (x : pyval) : res pyval :=
   dor t <- of_result (cast_timestamp (to_c08 x)) ;
-  let '(y, m, d, h, mi, s, us) := t in ROk (PDatetime y m d h mi s us).
+  let '(y, m, d, h, mi, s, us) := t in ROk (keep_zone x (PDatetime y m d h mi s us)).
 
 (* parse_decimal *)
 Definition parse_decimal (k : kwargs) (x : pyval) : res pyval :=
